@@ -11,6 +11,7 @@ import (
 	"os"
 	"strconv"
 	"strings"
+	"sync"
 	"time"
 )
 
@@ -86,7 +87,83 @@ func call(f opFunc, a []string, limit time.Duration) string {
 	}
 }
 
+// concurrentMain (VERIF_MODE=concurrent, binary built with -race): every case is run three times in sequence and
+// then once more from each of 16 goroutines running all cases at the same time, in different orders; each output
+// line is "<first result> SAME" or "<first result> DIFF <other result>".
+func concurrentMain() {
+	in := bufio.NewReaderSize(os.Stdin, 1<<20)
+	type kase struct {
+		f    opFunc
+		args []string
+	}
+	var cases []kase
+	for {
+		line, err := in.ReadString('\n')
+		if len(line) > 0 {
+			parts := strings.Split(strings.TrimRight(line, "\n"), "\t")
+			f, ok := ops[parts[0]]
+			if !ok {
+				f = func([]string) string { return "unknown-op" }
+			}
+			args := make([]string, len(parts)-1)
+			for i, h := range parts[1:] {
+				b, _ := hex.DecodeString(h)
+				args[i] = string(b)
+			}
+			cases = append(cases, kase{f, args})
+		}
+		if err != nil {
+			break
+		}
+	}
+	limit := 20 * time.Second
+	first := make([]string, len(cases))
+	diff := make([]string, len(cases))
+	for i, c := range cases {
+		first[i] = call(c.f, c.args, limit)
+		for rep := 0; rep < 2; rep++ {
+			if r := call(c.f, c.args, limit); r != first[i] && diff[i] == "" {
+				diff[i] = r
+			}
+		}
+	}
+	var mu sync.Mutex
+	var wg sync.WaitGroup
+	for g := 0; g < 16; g++ {
+		wg.Add(1)
+		go func(g int) {
+			defer wg.Done()
+			n := len(cases)
+			for k := 0; k < n; k++ {
+				i := (k*(2*g+1) + g*7) % n // a different order in every goroutine
+				r := call(cases[i].f, cases[i].args, limit)
+				if r != first[i] {
+					mu.Lock()
+					if diff[i] == "" {
+						diff[i] = r
+					}
+					mu.Unlock()
+				}
+			}
+		}(g)
+	}
+	wg.Wait()
+	out := bufio.NewWriterSize(os.Stdout, 1<<20)
+	defer out.Flush()
+	for i := range cases {
+		if diff[i] == "" {
+			fmt.Fprintln(out, first[i]+" SAME")
+		} else {
+			fmt.Fprintln(out, first[i]+" DIFF "+diff[i])
+		}
+	}
+}
+
 func main() {
+	if os.Getenv("VERIF_MODE") == "concurrent" {
+		concurrentMain()
+		return
+	}
 	in := bufio.NewReaderSize(os.Stdin, 1<<20)
 	out := bufio.NewWriterSize(os.Stdout, 1<<20)
 	defer out.Flush()
